@@ -222,6 +222,7 @@ def run(ctx):
 
     interp_cases = []
     interp_in = []
+    n_interp_viol = 0
     for p, h in objs.items():
         xp, fp = h.raw_estimate, h.bias_data
         js = [0, 1, 2, 57, 100, 197, 198, 199] if quick else list(range(200))
@@ -237,8 +238,10 @@ def run(ctx):
                 ctx.notes.append(f"numba np.interp and numpy np.interp differ at p={p} x={x!r}: {v!r} vs {v2!r}")
             o = hq.textbook_interp(x, T.raw[p - 7], T.bias[p - 7])
             if hq.relerr(v, o) > 1e-9:
-                ctx.violation({"p": p, "x": x, "impl_interp": v, "textbook": o},
-                              "np.interp over the shipped row is not the linear interpolation of the table")
+                n_interp_viol += 1
+                if n_interp_viol <= 3:
+                    ctx.violation({"p": p, "x": x, "impl_interp": v, "textbook": o},
+                                  "np.interp over the shipped row is not the linear interpolation of the table")
             interp_cases.append(f"({p}, {hq.coq_float(x)}, {hq.coq_float(v)})")
             interp_in.append((p, x, v))
             ctx.case_seen(("interp", p, x), True)
